@@ -290,7 +290,7 @@ func genSessions(c *lib.Ctx, rng *rand.Rand) []sessIn {
 	add(sessIn{Kind: "r:truncation-chunked", Asset: w.path, MPD: w.mpd, Cfg: cfgIn{Mode: "number", Snr: -1, Tsbd: -1, AtoMS: 1000, ChunkDurMS: 1000}, NowMS: 15000, Test: true, Events: steps(1), Solo: true})
 	//   (b) chunked transfer and a request that writeSegment rejects (here: number -1 of a session created
 	//       before the first segment is complete): send on closed channel, the process dies
-	add(sessIn{Kind: "f:chunked-rejected", Asset: "testpic_2s", MPD: "Manifest.mpd", Cfg: cfgIn{Mode: "number", Snr: -1, Tsbd: -1, AtoMS: 1000, ChunkDurMS: 1000}, NowMS: 500, Test: true, Events: steps(1), Solo: true})
+	add(sessIn{Kind: "r:chunked-before-first", Asset: "testpic_2s", MPD: "Manifest.mpd", Cfg: cfgIn{Mode: "number", Snr: -1, Tsbd: -1, AtoMS: 1000, ChunkDurMS: 1000}, NowMS: 500, Test: true, Events: steps(1), Solo: true})
 	//   (c) $Time$ addressing with generated subtitles: nil representation in generateTimelineEntries
 	add(sessIn{Kind: "f:timeline-timesubs", Asset: "testpic_2s", MPD: "Manifest.mpd", Cfg: cfgIn{Mode: "tlt", Snr: -1, Tsbd: -1, TimeSubs: []string{"en"}}, NowMS: 10000, Test: true, Events: steps(1), Solo: true})
 	//   (d) chunked and a receiver that answers 500 once: the session hangs for ever
@@ -300,15 +300,15 @@ func genSessions(c *lib.Ctx, rng *rand.Rand) []sessIn {
 		add(sessIn{Kind: "f:chunked-refused", Asset: "testpic_2s", MPD: "Manifest.mpd", Cfg: cfgIn{Mode: "number", Snr: -1, Tsbd: -1, AtoMS: 1000, ChunkDurMS: 1000}, NowMS: 10000, Test: true, Events: append(ev, evIn{Kind: "delete"})})
 	}
 	//   (e) a start number: the session numbers from the live edge as if the start number were 0
-	add(sessIn{Kind: "f:startnr", Asset: "testpic_2s", MPD: "Manifest.mpd", Cfg: cfgIn{Mode: "number", Snr: 3, Tsbd: -1}, NowMS: 10000, Test: true, Events: steps(2)})
-	add(sessIn{Kind: "f:startnr-panic", Asset: "testpic_2s", MPD: "Manifest.mpd", Cfg: cfgIn{Mode: "number", Snr: 10, Tsbd: -1}, NowMS: 10000, Test: true, Events: steps(1), Solo: true})
+	add(sessIn{Kind: "r:startnr", Asset: "testpic_2s", MPD: "Manifest.mpd", Cfg: cfgIn{Mode: "number", Snr: 3, Tsbd: -1}, NowMS: 10000, Test: true, Events: steps(2)})
+	add(sessIn{Kind: "r:startnr-above-edge", Asset: "testpic_2s", MPD: "Manifest.mpd", Cfg: cfgIn{Mode: "number", Snr: 10, Tsbd: -1}, NowMS: 10000, Test: true, Events: steps(1), Solo: true})
 	//   (f) started before the first segment is complete: the first trigger asks for segment -1
-	add(sessIn{Kind: "f:before-first", Asset: "testpic_2s", MPD: "Manifest.mpd", Cfg: cfgIn{Mode: "number", Snr: -1, Tsbd: -1}, NowMS: 1000, Test: true, Events: steps(3)})
+	add(sessIn{Kind: "r:before-first", Asset: "testpic_2s", MPD: "Manifest.mpd", Cfg: cfgIn{Mode: "number", Snr: -1, Tsbd: -1}, NowMS: 1000, Test: true, Events: steps(3)})
 	// 8. real time (no testNowMS): the timer drives the session; a receiver slower than a segment
 	//    duration makes the sender catch up (the caught-up segment is never marked as last)
 	if c.Thorough() { // the quick tier keeps one real-time session (the catch-up one below)
-		add(sessIn{Kind: "realtime", Asset: "testpic_2s", MPD: "Manifest.mpd", Cfg: cfgIn{Mode: "number", Snr: -1, Tsbd: -1}, Test: false, AlignMS: 2000, AlignOff: 1200,
-			Events: []evIn{{Kind: "wait", WaitMS: 1100}, {Kind: "wait", WaitMS: 2000}, {Kind: "delete"}}})
+		add(sessIn{Kind: "realtime", Asset: "testpic_2s", MPD: "Manifest.mpd", Cfg: cfgIn{Mode: "number", Snr: -1, Tsbd: -1}, Test: false, AlignMS: 2000, AlignOff: 300, Solo: true,
+			Events: []evIn{{Kind: "wait", WaitMS: 2000}, {Kind: "wait", WaitMS: 2000}, {Kind: "delete"}}})
 	}
 	// 9. DELETE while an init segment is being uploaded (the session is not yet "running"): it must
 	//    stop all the same: no later init, no step taken, no media segment
@@ -323,8 +323,8 @@ func genSessions(c *lib.Ctx, rng *rand.Rand) []sessIn {
 		add(sessIn{Kind: "delete-during-init", Asset: hold.a.path, MPD: hold.a.mpd, Cfg: cfgIn{Mode: hold.mode, Snr: -1, Tsbd: -1}, NowMS: 10000 + int64(i)*2000,
 			Test: true, HoldInit: hold.rep, Events: steps(1 + i%2)})
 	}
-	add(sessIn{Kind: "r:realtime-catchup", Asset: "testpic_2s", MPD: "Manifest.mpd", Cfg: cfgIn{Mode: "number", Snr: -1, Tsbd: -1}, Test: false, AlignMS: 2000, AlignOff: 1200, Dur: intp(2),
-		Events: []evIn{{Kind: "wait", WaitMS: 3600, SlowRep: "V300", SlowMS: 2300}}})
+	add(sessIn{Kind: "r:realtime-catchup", Asset: "testpic_2s", MPD: "Manifest.mpd", Cfg: cfgIn{Mode: "number", Snr: -1, Tsbd: -1}, Test: false, AlignMS: 2000, AlignOff: 600, Dur: intp(2), Solo: true,
+		Events: []evIn{{Kind: "wait", WaitMS: 4400, SlowRep: "V300", SlowMS: 2300}}})
 	return out
 }
 
@@ -788,11 +788,6 @@ func judge(c *lib.Ctx, terms *[]string, s *sessIn, p *played, a *lib.TLAsset) {
 		}
 	}
 	c.Sample(map[string]any{"session": s, "final": o.Final, "reps": o.Reps})
-	if beforeFirst && timeMode {
-		// number -1 under $Time$ addressing (a request 2^32 segments ahead) is outside the model's domain
-		c.Count("session:before-first-time-mode-not-modelled")
-		return
-	}
 	*terms = append(*terms, sessTerm(id, s, o, reps, repIdx, ref, now))
 }
 
